@@ -1055,6 +1055,10 @@ def _mod_contextlib(interp, m):
     NUL.ns["__enter__"] = method("nullcontext.__enter__", lambda i, a, k, n: a[0].fields["value"])
     NUL.ns["__exit__"] = method("nullcontext.__exit__", lambda i, a, k, n: False)
     m.ns["nullcontext"] = BuiltinV("contextlib.nullcontext", lambda i, a, k, n: Obj(NUL, {"value": a[0] if a else None}))
+    ACM = ClassV("AbstractContextManager", [], {"__doc__": None}, None, None, "contextlib.AbstractContextManager")
+    ACM.ns["__enter__"] = method("AbstractContextManager.__enter__", lambda i, a, k, n: a[0])
+    ACM.ns["__exit__"] = method("AbstractContextManager.__exit__", lambda i, a, k, n: None)
+    m.ns["AbstractContextManager"] = ACM
     _ext_default_getter(m, "contextlib")
 
 
